@@ -12,6 +12,12 @@ def vecOp (d : Dump) (a : Array String) : Option String :=
     some ("vec " ++ " ".intercalate ((List.range v.size).map (fun i => fmtF (v.get! i))))
   else none
 
+def cellOp (d : Dump) (a : Array String) : Option String :=
+  if a.size = 2 then
+    let t := d.flts a[0]!
+    some ("cell " ++ fmtF (t.get! (a[1]!.toNat!)))
+  else none
+
 partial def loop (D : Dump) (T : Tables Float) (h : IO.FS.Stream) (out : IO.FS.Stream) : IO Unit := do
   let line ← h.getLine
   if line.isEmpty then return ()
@@ -19,7 +25,7 @@ partial def loop (D : Dump) (T : Tables Float) (h : IO.FS.Stream) (out : IO.FS.S
   if t.size = 0 then loop D T h out else
   let fn := t[0]!
   let args := t.extract 1 t.size
-  let r := if fn.startsWith "spec." then dispatchSpec T fn args else if fn == "vec" then vecOp D args else dispatchGen T fn args
+  let r := if fn.startsWith "spec." then dispatchSpec T fn args else if fn == "vec" then vecOp D args else if fn == "cell" then cellOp D args else dispatchGen T fn args
   match r with
   | some s => out.putStrLn s
   | none => out.putStrLn "bad-op"
